@@ -549,7 +549,7 @@ def _worker_run(case):
 def run_cases(rep, cases, evalfn, shrinkfn=None, nproc=None, known=None):
     """evalfn(model, case) -> dict(detail=None|dict, nontrivial=bool, tag=str).
 
-    A harness exception in a worker aborts the run (exit 2 in main) - it is never a verdict.
+    A harness exception on a case is reported as a broken correspondence (see below), never as a value verdict.
     known(case, detail) -> text or None: a listed known finding (reported, not a violation).
     """
     import multiprocessing as mp
@@ -572,7 +572,19 @@ def run_cases(rep, cases, evalfn, shrinkfn=None, nproc=None, known=None):
     shr_model = None
     for case, out, err in results:
         if err is not None:
-            raise RuntimeError("harness error on case %s:\n%s" % (json.dumps(case, default=str)[:500], err))
+            # The correspondence could not be evaluated on this case: the implementation returned something the
+            # comparison code cannot digest (wrong shape, wrong type, ...) - which never happens on the unchanged tree.
+            # That is a broken correspondence, not a verdict on a value: it is reported as a violation whose replay
+            # names the case and the exception, flagged no-failing-input-found (kind != "input").  More than three of
+            # them abort the run as a harness error.
+            nexc = sum(1 for v in rep.violations if v[1] == "correspondence")
+            if nexc >= 3:
+                raise RuntimeError("harness error on case %s:\n%s" % (json.dumps(case, default=str)[:500], err))
+            rep.count(case, nontrivial=True, tag="harness-exception")
+            rep.violation(case, {"kind": "harness-exception", "trace": err,
+                                 "note": "the comparison code raised on this case; on the unchanged tree it does not"},
+                          kind="correspondence")
+            continue
         rep.count(case, nontrivial=out.get("nontrivial", True), tag=out.get("tag"))
         for sk, sv in (out.get("stats") or {}).items():      # optional per-case counters, summed
             rep.dist["stat:" + sk] = rep.dist.get("stat:" + sk, 0) + sv
